@@ -6,9 +6,15 @@ tie        : translators gen_mixer_consts.py / gen_seq_writers.py (every run) an
              native driver drv_c13: (a) the static downmix_int_8bit/16bit (TU inclusion of mixer.c) on random +
              boundary accumulators x amp 0..3 x 8/16 bit x signed/unsigned, compared by per-block hashes of the
              bytes written; (b) the final stage of libxmp_mixer_softmixer on accumulator buffers of real renders
-             (format dispatch, sample count, offsets, buffer_size)
+             (format dispatch, sample count, offsets, buffer_size); (c) every real xmp_set_tempo_factor call of
+             the lockstep contexts (`tfc` lines: format, rate, bpm, rrate, time_factor, argument as exact doubles) vs
+             Xmp.C13Timeline.setTempoFactor (return value and stored time_factor)
 search     : harness/c13_timeline.c — corpus modules rendered in lockstep by 11 contexts that differ only in the
-             output configuration, under a common control script: per-frame timeline equality, buffer layout,
+             output configuration, under a common control script (position/seek/row/restart calls, injected tempo
+             effects, xmp_set_tempo_factor with factors around the acceptance limit of one of the contexts, tiny /
+             huge / zero / negative / infinite / NaN factors, xmp_set_player probes): return value of every control
+             call (xmp_set_tempo_factor: among contexts of equal rate - the documented dependence on the sampling
+             rate is allowed, a dependence on the sample format is not), per-frame timeline equality, buffer layout,
              unsigned/high-byte/amplification relations sample by sample, accumulator equality;
              harness/c13_downmix.c — the three encoding relations on every value fed to the correspondence
 """
@@ -33,6 +39,11 @@ MANIFEST = dict(
          "(C13_downmix_monotone: a larger accumulator never gives a smaller sample, unsigned words included), saturating "
          "(C13_downmix_saturating: output = clamp of the floor-shifted accumulator, sticking at the limits beyond (HI+1)*2^shift / below "
          "LO*2^shift) and sign-preserving (C13_downmix_sign), a louder amplification never moves a sample towards zero (C13_amp_monotone), "
+         "C13_tempo_factor_format_independent: the one control call whose acceptance looks at the output configuration, "
+         "xmp_set_tempo_factor, is modelled exactly (XmpModel/C13Timeline.lean: libxmp_mixer_get_ticksize in IEEE double arithmetic as exact "
+         "m*2^e values, the bound XMP_MAX_FRAMESIZE/4 recognised by the translator as a constant, tempo_factor_shape) and returns the same and "
+         "leaves the same time_factor for any two contexts of equal sampling rate whatever their formats; C13_tempo_factor_accept_fits: an "
+         "accepted factor passes the guard of libxmp_mixer_prepare unchanged, so the frame fits in all 8 formats; "
          "and the format flags only select the layout "
          "(bytes written = ticksize*(2-mono)*(2-8bit) = buffer_size, within the allocations). C13_timeline proves configuration "
          "non-interference for a player of the shape of xmp_play_frame; C13_timeline_writers (decide over a table regenerated from src/*.c on "
@@ -58,7 +69,9 @@ REQUIRED = [P + n for n in (
     "C13_amp_api_range", "C13_downmix_monotone", "C13_downmix_saturating", "C13_downmix_sign", "C13_amp_monotone",
     "C13_buffer_layout", "C13_ticksize_guard", "C13_frame_encodings", "C13_timeline", "C13_timeline_writers",
     "cap_fits", "cap_assigned_is_guard", "seqWriters_outside_mixer", "seqWriters_scan_sane", "shifts_match_code", "offsets_match_code", "limits_consistent",
-    "fmt_bits_distinct")]
+    "fmt_bits_distinct")] + ["Xmp.C13Timeline." + n for n in (
+    "C13_tempo_factor_format_independent", "C13_tempo_factor_any_format", "C13_tempo_factor_refusal_keeps_state",
+    "C13_tempo_factor_accept_fits", "tempo_factor_shape", "getTicksize_range")]
 
 # normalised-text fingerprints of the modelled C functions on the tree the model was written against;
 # a change never alarms by itself, it multiplies the correspondence budget and is recorded
@@ -296,6 +309,10 @@ def parse_timeline(text):
             cur["sites"].append([line, None])
         elif line.startswith("siteout ") and cur["sites"]:
             cur["sites"][-1][1] = line.split()[1:]
+        elif line.startswith("tfc "):
+            cur.setdefault("tfc", []).append([line, None])
+        elif line.startswith("tfe ") and cur.get("tfc"):
+            cur["tfc"][-1][1] = line
         elif line.startswith("oracle_fail"):
             cur["fails"].append(line)
         elif line.startswith("stat "):
@@ -329,8 +346,11 @@ def run_timeline(ck):
           "timeline_samples_compared": 0, "timeline_loops_seen": 0, "site_frames": 0, "site_agree": 0,
           "timeline_configs_per_case": 11, "timeline_crashes": 0,
           "timeline_novoice_ticks": 0, "timeline_clamped_ticks": 0, "timeline_cases_with_clamp": 0, "timeline_slow_cases": 0,
-          "timeline_tempo_factor_rollbacks": 0}
+          "timeline_tempo_factor_rollbacks": 0, "tempo_factor_probes": 0, "tempo_factor_calls": 0, "tempo_factor_accepted": 0,
+          "tempo_factor_refused": 0, "tempo_factor_same_rate_pairs_compared": 0, "setter_probes": 0,
+          "tempo_factor_model_cases": 0, "tempo_factor_model_agree": 0}
     site_lines, site_expect = [], []
+    tf_lines, tf_expect = [], []
     fail_kinds = {}
     import collections
     hist = collections.Counter()
@@ -365,6 +385,16 @@ def run_timeline(ck):
             st["timeline_cases_with_clamp"] += 1 if s.get("clampticks", 0) > 0 else 0
             st["timeline_slow_cases"] += s.get("slow", 0)
             st["timeline_tempo_factor_rollbacks"] += s.get("tfroll", 0)
+            st["tempo_factor_probes"] += s.get("tfprobes", 0)
+            st["tempo_factor_calls"] += s.get("tfcalls", 0)
+            st["tempo_factor_accepted"] += s.get("tfaccept", 0)
+            st["tempo_factor_refused"] += s.get("tfrefuse", 0)
+            st["tempo_factor_same_rate_pairs_compared"] += s.get("tfpairs", 0)
+            st["setter_probes"] += s.get("setprobes", 0)
+            for line, exp in c.get("tfc", []):
+                if exp is not None:
+                    tf_lines.append(line)
+                    tf_expect.append((exp, c))
             for cl in c["cfg"]:
                 kv = dict(x.split("=") for x in cl.split()[1:])
                 r = int(kv["rate"])
@@ -411,6 +441,31 @@ def run_timeline(ck):
                                 "module %s cseed=%d fmt=%s ticksize=%s amp=%s: real buffer_size=%s hash=%s ; model %s" % (
                                     c["module"], c["cseed"], f[1], f[2], f[3], exp[0], exp[1], m))
         ck.note("site_formats_seen", fmts)
+    # correspondence of xmp_set_tempo_factor (real calls of the lockstep contexts) with Xmp.C13Timeline.setTempoFactor
+    if ck.lean_ok and tf_lines:
+        chunks = [tf_lines[i::vlib.NCPU] for i in range(vlib.NCPU)]
+        exps = [tf_expect[i::vlib.NCPU] for i in range(vlib.NCPU)]
+        outs = vlib.pmap(lambda ch: vlib.run_driver("drv_c13", "\n".join(ch) + "\n") if ch else [], chunks)
+        seen = {}
+        nbad = 0
+        for ch, ex, mo in zip(chunks, exps, outs):
+            if len(mo) != len(ch):
+                ck.unproved("correspondence protocol", "drv_c13 answered %d lines for %d tfc cases" % (len(mo), len(ch)))
+                continue
+            for line, (exp, c), m in zip(ch, ex, mo):
+                st["tempo_factor_model_cases"] += 1
+                f = line.split()
+                seen["fmt_%s_ret_%s" % (f[1], exp.split()[1])] = seen.get("fmt_%s_ret_%s" % (f[1], exp.split()[1]), 0) + 1
+                ck.count("tfc:%s" % vlib.hash_str(line), nontrivial=f[9] == "pos")
+                if m.split() == exp.split():
+                    st["tempo_factor_model_agree"] += 1
+                    ck.cov["traces_validated_against_impl"] += 1
+                else:
+                    nbad += 1
+                    if nbad <= 3:
+                        ck.unproved("correspondence C13Timeline.setTempoFactor vs xmp_set_tempo_factor",
+                                    "module %s cseed=%d case: %s\nreal : %s\nmodel: %s" % (c["module"], c["cseed"], line, exp, m))
+        ck.note("tempo_factor_formats_x_returns", dict(sorted(seen.items())))
     for k, v in st.items():
         ck.note(k, v)
     ck.note("timeline_config_histogram", dict(sorted(hist.items())))
